@@ -86,6 +86,16 @@ def checkUncompressedName (p : Bytes) (off : Nat) : Res Nat :=
   if off ≥ p.length then .err .internalError else
   cunLoop p nameFuel off 0
 
+/-- unfold the generated numeric constants so that `omega` can see their values -/
+macro "consts" : tactic =>
+  `(tactic| try simp only [DNS_MAX_HOSTNAME_LEN, DNS_MAX_HOSTNAME_INDIRECTIONS, nameFuel, DNS_HEADER_SIZE,
+      DNS_QUESTION_OFFSET, DNS_RR_QUESTION_HEADER_SIZE, DNS_RR_HEADER_SIZE, DNS_RR_TYPE_OFFSET,
+      DNS_RR_CLASS_OFFSET, DNS_RR_TTL_OFFSET, DNS_RR_RDLEN_OFFSET, DNS_OPT_RR_MAX_PAYLOAD_OFFSET,
+      DNS_OPT_RR_EXT_RCODE_OFFSET, DNS_OPT_RR_EDNS_VERSION_OFFSET, DNS_OPT_RR_EDNS_EXT_FLAGS_OFFSET,
+      DNS_OPT_RR_RDLEN_OFFSET, DNS_OPT_RR_HEADER_SIZE, DNS_EDNS_RR_CODE_OFFSET, DNS_EDNS_RR_RDLEN_OFFSET,
+      DNS_EDNS_RR_HEADER_SIZE, DNS_FLAGS_OFFSET, DNS_FLAG_QR, DNS_MAX_UNCOMPRESSED_SIZE, CLASS_IN,
+      TYPE_A, TYPE_NS, TYPE_CNAME, TYPE_SOA, TYPE_PTR, TYPE_MX, TYPE_TXT, TYPE_AAAA, TYPE_DNAME, TYPE_OPT] at *)
+
 example : checkCompressedName [3, 119, 119, 119, 0, 0xc0, 0] 5 = .ok 7 := by decide
 example : checkCompressedName [0xc0, 0] 0 = .err .invalidName := by decide
 example : checkUncompressedName [3, 119, 119, 119, 0, 0xc0, 0] 0 = .ok 5 := by decide
